@@ -158,7 +158,7 @@ def predictDump (f b : List (List String)) : Option (List (List String)) := do
     (((bd.cfs.find? (fun (c : CfLine) => c.name == name)).map (fun (c : CfLine) => c.rank)).getD 0).toNat
   let hasTs := ((fd.kind "hdr").headD []).contains "ts=1"
   let fcf := fd.cfs
-  let table : List CF := fcf.map (fun c => ⟨newRank c.name, c.name.startsWith "#", c.name⟩)
+  let table : List CF := fcf.map (fun c => ⟨newRank c.name, c.name.startsWith (String.singleton Gen.C17.lastNameChar), c.name⟩)
   -- payload of the parallel array: "<ts> <args>" are the last two tokens of rest
   let tsOf (c : CfLine) : String := " ".intercalate ((c.rest.splitOn " ").drop 3)
   let headOf (c : CfLine) : String := " ".intercalate ((c.rest.splitOn " ").take 3)
